@@ -384,6 +384,23 @@ class Interp:
                 facts = self._closure_facts(val, alloc)
                 for bv, f in facts:
                     self.st.assume(z3.ForAll([r] + bv, z3.Implies(z3.Select(alloc, r), f)))
+                for bv, f in self._length_facts(val):
+                    self.st.assume(z3.ForAll([r] + bv, f))
+
+    def _length_facts(self, val):
+        """list lengths stored in the heap are non-negative"""
+        so = val.sort
+        if isinstance(so, S.TList):
+            return [([], val.terms[0] >= 0)]
+        if isinstance(so, S.TDict):
+            k = so.key.fresh("hlk")
+            out = [(list(k.terms) + bv, f) for bv, f in self._length_facts(so.get(val, k))]
+            if so.ordered:
+                out.append(([], so.keys_list(val).terms[0] >= 0))
+            return out
+        if isinstance(so, S.TOpt):
+            return self._length_facts(so.payload(val))
+        return []
 
     def _closure_facts(self, val, alloc):
         so = val.sort
@@ -721,7 +738,8 @@ class Interp:
                 continue
             r = z3.Const(S.fresh_name("fr"), S.RefS)
             so = self.m.field_sort(*key)[1]
-            same = so.eq(so.select(arrs, r), so.select(old, r))
+            # leaf-wise identity (stronger than Python equality, and what "untouched" means)
+            same = z3.And(*[x == y for x, y in zip(so.select(arrs, r).terms, so.select(old, r).terms)])
             cond = z3.And(z3.Select(self.entry_alloc, r), *[r != t for t in tg])
             self.oblige(f"frame:{key[0]}.{key[1]}", z3.ForAll([r], z3.Implies(cond, same)))
 
@@ -1033,7 +1051,12 @@ class Interp:
         for n, inv in enumerate(invs):
             self.oblige(f"inv_init#{k}.{n}", self.ev_spec(inv), {"clause": ast.unparse(inv)})
         # 2. havoc everything the body may modify
-        mods = assigned_names(s.body) | mutated_roots(s.body)
+        # locals rebound in the body, plus local CONTAINERS mutated in place (value semantics); a method call on a
+        # reference-typed local does not change the local itself (heap effects are havocked separately)
+        mods = assigned_names(s.body) | {
+            r for r in mutated_roots(s.body)
+            if isinstance(self.st.locals.get(r), V) and isinstance(self.st.locals[r].sort, (S.TList, S.TSet, S.TDict))
+        }
         if kind == "for":
             mods |= {idx_name}
             mods -= assigned_names([ast.Expr(value=s.target)]) if False else set()
@@ -1116,7 +1139,7 @@ class Interp:
                 cur = self.heap_arrays(self.st, key, so)
                 old = self.heap_arrays(self.old_st, key, so)
                 cond = z3.And(z3.Select(self.entry_alloc, r), *[r != t for t in tg])
-                return z3.ForAll([r], z3.Implies(cond, so.eq(so.select(cur, r), so.select(old, r))))
+                return z3.ForAll([r], z3.Implies(cond, z3.And(*[x == y for x, y in zip(so.select(cur, r).terms, so.select(old, r).terms)])))
 
             out.append((key, mk))
         return out
@@ -1859,7 +1882,7 @@ class Interp:
         defs = [e for e in fs.ensures if isinstance(e, ast.Compare) and len(e.ops) == 1 and isinstance(e.ops[0], ast.Eq)
                 and isinstance(e.left, ast.Name) and e.left.id == "result"]
         if len(defs) != 1:
-            raise OutOfSubset(f"pure contract {fs.name} needs exactly one `ensures(result == E)`")
+            return self.call_pure_uf(fs, env)
         saved = (self.st.locals, self.bound, self.old_st)
         self.st.locals, self.bound = env, dict(self.bound)
         self.old_st = self.st
@@ -1874,6 +1897,48 @@ class Interp:
         finally:
             self.st.locals, self.bound, self.old_st = saved
         return self.coerce(r, fs.ret) if fs.ret is not None and isinstance(r, V) else r
+
+    def call_pure_uf(self, fs, env):
+        """pure contract without a functional definition, over heap-independent (non-reference) parameters: the result is an
+        uninterpreted function of the arguments and the contract's clauses become one global axiom about that function"""
+        for nme, so, _ in fs.params:
+            if so is None or _mentions_ref(so):
+                raise OutOfSubset(f"pure contract {fs.name}: parameter {nme} is heap-dependent; needs `ensures(result == E)`")
+        key = "purefn:" + fs.name
+        dom = []
+        for nme, so, _ in fs.params:
+            dom += [zs for _, zs in so.leaves()]
+        if key not in self.eng.ufuncs:
+            self.eng.ufuncs[key] = [z3.Function("fn." + fs.name + sfx, *dom, zs) for sfx, zs in fs.ret.leaves()]
+            # axiom: forall params. requires => ensures[result := fn(params)]
+            qenv, bound = {}, []
+            for nme, so, _ in fs.params:
+                v = so.const(f"qp.{fs.name}.{nme}")
+                qenv[nme] = v
+                bound += list(v.terms)
+            qenv["result"] = V(fs.ret, tuple(f(*bound) for f in self.eng.ufuncs[key]))
+            saved = (self.st.locals, self.bound, self.old_st, self.spec_pre)
+            self.st.locals, self.bound, self.old_st, self.spec_pre = qenv, {}, self.st, None
+            try:
+                pre = [self.ev_spec(r) for r in fs.requires]
+                post = [self.ev_spec(e) for e in fs.ensures]
+            finally:
+                self.st.locals, self.bound, self.old_st, self.spec_pre = saved
+            self.eng.extra_axioms[key] = z3.ForAll(bound, z3.Implies(z3.And(*pre), z3.And(*post)))
+        flat = []
+        for nme, so, _ in fs.params:
+            flat += list(env[nme].terms)
+        saved = (self.st.locals, self.bound, self.old_st)
+        self.st.locals, self.bound, self.old_st = env, dict(self.bound), self.st
+        try:
+            pre = [self.ev_spec(r) for r in fs.requires]
+            for en, when, strict in fs.raises:
+                pre.append(z3.Not(self.ev_spec(when)) if when is not None else z3.BoolVal(False))
+        finally:
+            self.st.locals, self.bound, self.old_st = saved
+        if self.spec_pre is not None:
+            self.spec_pre.extend(pre)
+        return V(fs.ret, tuple(f(*flat) for f in self.eng.ufuncs[key]))
 
     def raise_from_call(self, fs, k, en, env, pre_st):
         self.st.locals = env
